@@ -169,11 +169,11 @@ theorem count_pairs_eq_spec_partial (auto : Bool) (N : Nat) (L : Nat → List Na
 
 /-- the hand-modelled glue around the generated kernels is unchanged -/
 theorem glue_pinned :
-    Gen.pinTreeCount = "188fdb22705819f8" ∧ Gen.pinCountsForLimits = "03efe76cf86d06c9" ∧
-    Gen.pinAngBins = "ce0af264c4fb0e84" ∧ Gen.pinLogMid = "5d1819eef9b23d02" ∧
-    Gen.pinFromCatalogs = "011d88355efe3fac" ∧ Gen.pinMaxAngle = "64d3014f9ecc12f4" ∧
-    Gen.pinIterPairs = "7dc1e0d446fe7f96" ∧ Gen.pinCountPairs = "a3afbc925fa2bff3" ∧
-    Gen.pinProcessPatchPair = "893256e78122b0fe" ∧ Gen.pinSetPatchPair = "7c3223e9bba29111" := by
+    Gen.pinTreeCount = "8155ef0822c3a62c" ∧ Gen.pinCountsForLimits = "3fd63e4b83225df7" ∧
+    Gen.pinAngBins = "d97d360d292d6a1b" ∧ Gen.pinLogMid = "bc4f1ba1f0f542d8" ∧
+    Gen.pinFromCatalogs = "50a9a6dcda368013" ∧ Gen.pinMaxAngle = "6fda3a0b4dde6b2e" ∧
+    Gen.pinIterPairs = "cbd1ea67dba98422" ∧ Gen.pinCountPairs = "7cd9ecb7ccceeb9a" ∧
+    Gen.pinProcessPatchPair = "6dc1ae67850d260f" ∧ Gen.pinSetPatchPair = "4255db4903d80462" := by
   decide
 
 /-! non-vacuity -/
